@@ -19,7 +19,8 @@ RULE = ("random valid scripts over the whole language (typed variables, arrays, 
         "arguments, loops with computed modes, template parameters with adversarial names, register expressions, target/type options, "
         "tdm p-arrays), valid and in domain per the reference interpreter; 3 (quick) / 6 (thorough) generations each; non-trivial = at "
         "least 3 operations and one of {list kwarg, parameter in kwarg/list, several parameters, register expression, array argument, "
-        "options, computed modes, tdm}; distinct by SHA-1 of the text")
+        "options, computed modes, tdm}; distinct by SHA-1 of the text"
+        '; every tenth valid script once more with statements in which a parameter or register cancels identically (cancelling lane: weak comparison for generation 1 -> 2, strict from generation 2 on)')
 BUDGET = {"quick": 3500, "thorough": 50000}
 MIN_NONTRIVIAL = {"quick": 300, "thorough": 3000}
 REQUIRED_FUNCTIONS = ["program.py:BlackbirdProgram.serialize", "program.py:numpy_to_blackbird", "program.py:_format_value"]
